@@ -16,11 +16,13 @@ json.dump(e,open(p,'w'),indent=1)
 PY
 }
 mkdir -p work/fuzz work/log
+export CARGO_TARGET_DIR="${CARGO_TARGET_DIR:-$(pwd)/target}"
 blog="work/log/fuzzbuild.$prop.$$.log"
 ( exec 9> work/fuzzbuild.lock; flock 9; cd harness/fuzz && cargo +nightly fuzz build "$target" > "../../$blog" 2>&1 )
 if [ $? -ne 0 ]; then note unavailable "{\"reason\":\"cargo +nightly fuzz build failed\"}"; echo "fuzz stage unavailable (build failed), PBT part decides" >&2; exit 0; fi
 rm -f "$blog"
-bin="target/x86_64-unknown-linux-gnu/release/$target"
+export CARGO_TARGET_DIR="${CARGO_TARGET_DIR:-$(pwd)/target}"
+bin="$CARGO_TARGET_DIR/x86_64-unknown-linux-gnu/release/$target"
 [ -x "$bin" ] || { note unavailable "{\"reason\":\"fuzz binary missing\"}"; exit 0; }
 corpus="work/fuzz/corpus.$prop.$$"; mkdir -p "$corpus"; cp harness/fuzz/seeds/"$target"/* "$corpus"/ 2>/dev/null
 flog="work/fuzz/log.$prop.$$"
